@@ -74,8 +74,11 @@ class Session:
         self.M0 = self.refM0 = None
         if self.curve in WITH_DOMAIN:
             factory = getattr(IM, self.curve + 'BoundaryRefined')
-            problem = '{}_{}'.format(self.curve, self.cfg['u0'])
-            u0 = u0_of(self.cfg['u0'])
+            # like the driver: one label per (domain, problem); several
+            # problems may share one cache directory
+            self.u0_kind = spec.get('u0', self.cfg['u0'])
+            problem = '{}_{}'.format(self.curve, self.u0_kind)
+            u0 = u0_of(self.u0_kind)
             self.M0 = IPm.InitialOperator(bdr_mesh=mesh,
                                           u0=u0,
                                           initial_mesh=factory,
@@ -194,7 +197,7 @@ class World:
         return R
 
     def ref_vector(self, s, elems, order_seed):
-        key0 = (s.curve, 'M0', s.cfg['u0'], s.cfg['quad_int'])
+        key0 = (s.curve, 'M0', s.u0_kind, s.cfg['quad_int'])
         out = np.zeros(len(elems))
         for j, e in enumerate(elems):
             k = (key0, geom(e))
@@ -429,7 +432,8 @@ class World:
             self.cov.inc('skipped.op_m0_precondition')
             return
         R = self.ref_vector(s, e_list, op.get('set_seed', 0))
-        opkey = ('M0', s.curve, s.dir_idx, tuple(geom(e) for e in e_list))
+        opkey = ('M0', s.curve, s.dir_idx, s.u0_kind,
+                 tuple(geom(e) for e in e_list))
         self.arm(op)
         self._finish(
             s, op, 'linform_vector',
@@ -577,10 +581,15 @@ def gen_run(seed, params):
     ops = []
     sess = {}  # sid -> dict(curve, n, dir, pool of selections)
     twin = rng.random() < params.get('p_twin', 0.15)
-    lookalike = (not twin) and rng.random() < params.get('p_lookalike', 0.08)
+    twin_problems = (not twin) and rng.random() < params.get(
+        'p_twin_problems', 0.06)
+    lookalike = (not twin) and (not twin_problems) and rng.random() < (
+        params.get('p_lookalike', 0.08))
     n_sessions = 2 if twin or rng.random() < 0.25 else 1
     if lookalike:
         n_sessions = 1
+    if twin_problems:
+        n_sessions = 2
     graded = False
     for sid in range(n_sessions):
         if twin:
@@ -589,6 +598,13 @@ def gen_run(seed, params):
             # equal reprs on the shared parameter range need equal histories
             if sid == 1:
                 hist = sess[0]['hist']
+            d = 0
+        elif twin_problems:
+            # two problems on one domain sharing one directory, as two driver
+            # invocations do: only the label keeps their load vectors apart
+            curve = sess[0]['curve'] if sid else rng.choice(list(WITH_DOMAIN))
+            hist = sess[0]['hist'] if sid else gen_history(
+                rng, curve, rng.choice([8, 10, 12]))[0]
             d = 0
         else:
             curve = rng.choice(params.get(
@@ -608,6 +624,9 @@ def gen_run(seed, params):
             # float time grid on both: the int 0 / 1 of the default grid
             # would print differently from bisection midpoints
             spec['time'] = [0.0, 1.0]
+        if twin_problems:
+            spec['u0'] = ['one', 'sine'][sid] if rng.random() < 0.5 else [
+                'poly', 'one'][sid]
         ops.append(spec)
         # size of the mesh (generation time replay)
         tmp = Session(spec, ['/nonexistent'] * n_dirs, dirs)
@@ -712,9 +731,13 @@ def gen_run(seed, params):
         if crash:
             base['crash'] = crash
             dead.add(sid)
-        if r < 0.18 + params.get('p_m0', 0.2) and S['curve'] in WITH_DOMAIN:
+        if (r < 0.18 + params.get('p_m0', 0.2) or
+                (twin_problems and r < 0.75)) and S['curve'] in WITH_DOMAIN:
             m = rng.choice([1, 2, 3, 5, 8])
-            if S['sels'] and rng.random() < 0.5:
+            other = sess[1 - sid]['sels'] if twin_problems else None
+            if other and rng.random() < 0.7:
+                sel = rng.choice(other)[0]
+            elif S['sels'] and rng.random() < 0.5:
                 prev = rng.choice(S['sels'])
                 sel = prev[0]
             else:
